@@ -1,5 +1,6 @@
 import EAO.Driver.Codec
 import EAO.Model.CHP
+import EAO.Model.CHPMinLoad
 import EAO.Spec.UnitCommit
 /-!
 # EAO.Driver.CHP — line-protocol handlers for the CHP / Plant builder and the unit-commitment automaton
@@ -9,6 +10,8 @@ import EAO.Spec.UnitCommit
   `p` = {name, nodes, no_heat, min_cap, conv, share|null, ramp|null, start_costs, running_costs,
          min_runtime, tar, min_downtime, tao, last_dispatch, start_fuel, fuel_eff, cons_if_on, freq_mismatch}
   (parameters in the `getParam` encoding, durations and ramp as rationals in main time units)
+  optional: `"min_load": {"threshold": param|null, "costs": param|null}` (class `CHPAsset_with_min_load_costs`:
+  the booleans and rows are added on top of the CHP problem); `"costs_only": true` → `{"c": [...]}` | `{"error"}`
 * `{"op":"uc_accepts", "R":n, "D":n, "tar":n, "tao":n, "on":[bool…]}` or with `"patterns":[[bool…]…]`
   → `{"accepts": b, "spec": b, "guard": b}` resp. `{"accepts":[…], "spec":[…], "guard": b}`
 -/
@@ -38,17 +41,42 @@ def handleCHP (op : String) (j : Json) : Option (Except String Json) :=
     let prices ← field j "prices" getPrices
     let unitS ← field j "unit_s" Json.getNat?
     let stepS ← field j "step_s" Json.getNat?
+    let ml ← fieldOpt j "min_load" (fun m => do
+      pure ({ threshold := ← fieldOpt m "threshold" getParam, costs := ← fieldOpt m "costs" getParam } : MinLoadP))
+    let costsOnly := (← fieldOpt j "costs_only" Json.getBool?).getD false
+    let jErr (e : BuildError) : Json := Json.mkObj [("error", Json.str e.toString)]
+    if costsOnly then
+      let c := do
+        let c ← costsOnlyCHP p base g prices unitS stepS
+        match ml with
+        | none => pure c
+        | some q => costsOnlyMinLoad q c g prices
+      match c with
+      | .error e => pure (jErr e)
+      | .ok c => pure (Json.mkObj [("c", jRats c)])
+    else
+    let finish (a : AssetProblem) : Except BuildError AssetProblem :=
+      match ml with
+      | none => pure a
+      | some q => buildMinLoad q a g prices
     match resolveCHP p base g prices unitS stepS with
-    | .error e => pure (Json.mkObj [("error", Json.str e.toString)])
-    | .ok none => pure (Json.mkObj [("problem", jAsset base), ("info", Json.null)])
+    | .error e => pure (jErr e)
+    | .ok none =>
+      match finish base with
+      | .error e => pure (jErr e)
+      | .ok a => pure (Json.mkObj [("problem", jAsset a), ("info", Json.null)])
     | .ok (some r) =>
       let L := r.layout
-      pure (Json.mkObj [("problem", jAsset (assembleCHP r)),
+      match finish (assembleCHP r) with
+      | .error e => pure (jErr e)
+      | .ok a =>
+      pure (Json.mkObj [("problem", jAsset a),
         ("info", Json.mkObj [("R", jNat r.R), ("D", jNat r.D), ("tar", jNat r.tar), ("tao", jNat r.tao),
           ("inc_on", Json.bool r.incOn), ("inc_start", Json.bool r.incStart), ("heat", Json.bool r.heat),
           ("fuel", match r.fuel with | some f => Json.str f | none => Json.null),
           ("heat_idx", jNat L.heatIdx), ("on_idx", jNat L.onIdx), ("start_idx", jNat L.startIdx),
-          ("n_commit_rows", jNat r.commitRows.length), ("commit_ok", Json.bool r.commitOK), ("fuel_ok", Json.bool r.fuelOK)])])
+          ("n_commit_rows", jNat r.commitRows.length), ("commit_ok", Json.bool r.commitOK), ("fuel_ok", Json.bool r.fuelOK),
+          ("n_chp_vars", jNat r.cost.length)])])
   | "uc_accepts" => do
     let p : UC.UCP := { R := ← field j "R" Json.getNat?, D := ← field j "D" Json.getNat?,
                         tar := ← field j "tar" Json.getNat?, tao := ← field j "tao" Json.getNat? }
